@@ -210,6 +210,7 @@ func Run(ctx *core.Ctx) {
 	}
 	// ---- workload A: state graph sweep
 	sweep(ctx, newSess)
+	supersededDeadlines(ctx, newSess)
 
 	// ---- workload B: random programs
 	nprog := ctx.Pick(120, 3000)
@@ -248,6 +249,57 @@ func Run(ctx *core.Ctx) {
 		sanitizerRun(ctx)
 	}
 	ctx.Finish()
+}
+
+// supersededDeadlines: the only part of C01 in which a deadline passes. Objects
+// get a one-second deadline which is then moved far away (EXPIRE, SET ... EX
+// again), removed (PERSIST, SET without EX) or made irrelevant (DEL and a new
+// SET, RENAME of the collection) through the model-checked commands; two and a
+// half seconds later the visible dataset must still be the model's: a deadline
+// that no longer applies must not remove anything.
+func supersededDeadlines(ctx *core.Ctx, newSess func() *sess) {
+	ss := newSess()
+	defer ss.c.Close()
+	objs := map[string][]string{"p": {"POINT", "10", "20"}, "s": {"STRING", "text"}, "b": {"BOUNDS", "1", "2", "3", "4"}}
+	set := func(id string, ex string, ob []string) []string {
+		c := []string{"SET", "qd", id}
+		if ex != "" {
+			c = append(c, "EX", ex)
+		}
+		return append(c, ob...)
+	}
+	var cmds [][]string
+	for _, k := range []string{"p", "s", "b"} {
+		ob := objs[k]
+		cmds = append(cmds,
+			set("a"+k, "1", ob), []string{"EXPIRE", "qd", "a" + k, "1000"},
+			set("b"+k, "1", ob), set("b"+k, "1000", ob),
+			set("c"+k, "1", ob), []string{"PERSIST", "qd", "c" + k},
+			set("d"+k, "1", ob), set("d"+k, "", ob),
+			set("e"+k, "1", ob), []string{"FSET", "qd", "e" + k, "f", "5"}, []string{"EXPIRE", "qd", "e" + k, "2000"},
+			set("g"+k, "1", ob), []string{"DEL", "qd", "g" + k}, set("g"+k, "", ob),
+			set("h"+k, "1", ob), set("h"+k, "1", objs["p"]), set("h"+k, "3000", objs["s"]),
+		)
+	}
+	cmds = append(cmds, []string{"SET", "qr", "x", "EX", "1", "POINT", "1", "1"}, []string{"EXPIRE", "qr", "x", "1000"}, []string{"RENAME", "qr", "qr2"}, []string{"SET", "qr", "x", "POINT", "2", "2"})
+	for _, c := range cmds {
+		if !ss.step(c) {
+			return
+		}
+	}
+	last := time.Now()
+	if !ss.compareDump("right after the deadlines were superseded") {
+		return
+	}
+	time.Sleep(2500*time.Millisecond - time.Since(last))
+	ctx.Count("superseded_deadlines_waited_out", int64(len(cmds)))
+	ctx.Distinct("superseded-deadline|waited")
+	for _, c := range [][]string{{"SCAN", "qd", "COUNT"}, {"EXISTS", "qd", "ap"}, {"EXISTS", "qd", "bs"}, {"GET", "qr2", "x"}, {"GET", "qr", "x"}} {
+		if !ss.step(c) {
+			return
+		}
+	}
+	ss.compareDump("2.5 s after one-second deadlines were moved, removed or superseded")
 }
 
 // sanitizerRun repeats random programs with hostile lengths (around the varint
